@@ -485,7 +485,7 @@ fn main() {
     cov.evaluations = all.get("evaluations") + all.get("render_evaluations");
     cov.traces_validated = all.get("states");
     cov.distinct_nontrivial = all.get("tagged_evaluations");
-    cov.rule = format!("layer A: BFS over commit / branch&checkout / checkout / merge(ff or true merge) from a one-commit repository, commits <= {nc}, extra branches <= {nb}: {} distinct shapes ({} used{}), {} explorer transitions; layer B: every placement of <= {tmax} tags from {:?} on any commits x HEAD at every branch tip and detached at every commit x date modes (increasing; zig-zag and all-equal for merge shapes, thorough also decreasing); layer C: every subset of <= {max_subset} of 8 names {:?} on one commit x 2 HEAD positions x 3 input formats, the chunks of subsets alternately (thorough: both) in SHA-1 and SHA-256 repositories (64-digit object names), annotated tags written as ordinary tag objects or nested 2 and 3 deep (a tag of a tag; quick: every fourth chunk each, thorough: all); layer D: 27 work-tree states (incl. untracked files covered only by the user-level core.excludesFile or by .git/info/exclude) x {} baseline repositories; layer E: 11 branch names (with '/', '.', non-ASCII, equal to a version tag / a non-version tag / a ref-namespace word) x a tag of the same short name (absent, lightweight or annotated, on the middle commit or the tip) x HEAD on that branch / the other branch / detached x 3 input formats; layer F: checkouts whose .git is a file (linked worktree beside and nested inside the main work tree, separate git directory) clean and with an untracked file; layer G: a linear history of 100001 (thorough 300001) commits with the nearest valid tag 9999 .. 100000 commits behind HEAD; layer H: crowded repositories - 12 .. 130 (thorough 1 .. 600) version tags (numeric third numbers, pre-release and v-less spellings, every seventh annotated) plus non-version names on each of five commits of a 37-commit history, as many higher-versioned tags on an unreachable side branch, HEAD at seven positions x 2 input formats. Every state is materialised in real git by fast-import, conformance-checked with `git log --all` / `for-each-ref` / `symbolic-ref` / `status --porcelain=v2`, and judged against R-GIT (nearest validly tagged commit, highest tag under R-SV / C11 order (auto mode: highest under either format that accepts it), distance = |reach(HEAD) minus reach(tag)|, dirty, branch, hashes, times). non-trivial = evaluations that have a valid reachable tag", all_shapes.len(), shapes.len(), if quick { ": all with <= 3 commits plus the 4-commit merge shapes" } else { "" }, shape_transitions, alpha.iter().map(|a| a.0).collect::<Vec<_>>(), names8.iter().map(|a| a.0).collect::<Vec<_>>(), baselines.len());
+    cov.rule = format!("layer A: BFS over commit / branch&checkout / checkout / merge(ff or true merge) from a one-commit repository, commits <= {nc}, extra branches <= {nb}: {} distinct shapes ({} used{}), {} explorer transitions; layer B: every placement of <= {tmax} tags from {:?} on any commits x HEAD at every branch tip and detached at every commit x date modes (increasing; zig-zag and all-equal for merge shapes, thorough also decreasing); layer C: every subset of <= {max_subset} of 8 names {:?} on one commit x 2 HEAD positions x 3 input formats, the chunks of subsets alternately (thorough: both) in SHA-1 and SHA-256 repositories (64-digit object names), annotated tags written as ordinary tag objects or nested 2 and 3 deep (a tag of a tag; quick: every fourth chunk each, thorough: all); layer D: 30 work-tree states (incl. unmerged paths left by a conflict - UU, UD, AA - as the only change; untracked files covered only by the user-level core.excludesFile or by .git/info/exclude) x {} baseline repositories; layer E: 11 branch names (with '/', '.', non-ASCII, equal to a version tag / a non-version tag / a ref-namespace word) x a tag of the same short name (absent, lightweight or annotated, on the middle commit or the tip) x HEAD on that branch / the other branch / detached x 3 input formats; layer F: checkouts whose .git is a file (linked worktree beside and nested inside the main work tree, separate git directory) clean and with an untracked file; layer G: a linear history of 100001 (thorough 300001) commits with the nearest valid tag 9999 .. 100000 commits behind HEAD; layer H: crowded repositories - 12 .. 130 (thorough 1 .. 600) version tags (numeric third numbers, pre-release and v-less spellings, every seventh annotated) plus non-version names on each of five commits of a 37-commit history, as many higher-versioned tags on an unreachable side branch, HEAD at seven positions x 2 input formats. Every state is materialised in real git by fast-import, conformance-checked with `git log --all` / `for-each-ref` / `symbolic-ref` / `status --porcelain=v2`, and judged against R-GIT (nearest validly tagged commit, highest tag under R-SV / C11 order (auto mode: highest under either format that accepts it), distance = |reach(HEAD) minus reach(tag)|, dirty, branch, hashes, times). non-trivial = evaluations that have a valid reachable tag", all_shapes.len(), shapes.len(), if quick { ": all with <= 3 commits plus the 4-commit merge shapes" } else { "" }, shape_transitions, alpha.iter().map(|a| a.0).collect::<Vec<_>>(), names8.iter().map(|a| a.0).collect::<Vec<_>>(), baselines.len());
     cov.set("cumulative_seconds_after_layer", json!(layer_secs.iter().map(|(n, t)| json!({"layer": n, "t": (t * 10.0).round() / 10.0})).collect::<Vec<_>>()));
     cov.exhaustive = !was_capped;
     cov.samples = vec![json!({"ops":["branch b1","commit","checkout main","commit","merge b1"],"dates":"decreasing","tags":["v2.0.0@1","v1.0.0@0"],"head":"main"}), json!({"one_commit_tags":["v1.0.0","1.1.0rc1","1.1.0.post1"],"input_format":"auto"}), json!({"worktree":"IgnoredOnly","head":"detached"})];
